@@ -460,74 +460,57 @@ int k(int a, int b) { while (a < b) { a = a + f(b); if (a == 17) break; } return
 int h(int x) { int s = 0; int i; for (i = 0; i < x; i++) { s += f(i) + k(i, x); } return s; }
 void main_(void) { arr[1] = h(7); msg[2] = 1; }
 """
+C_EXTRAS = ["", "int e1(int a){return f(a)+1;}\n", "int e1(int a){return f(a)+1;}\nint e2(int a){return e1(a)+f(a);}\n",
+            "int e1(int a){return f(a)+h(a)+k(a,a);}\n"]
 HILO_PAIRS = {("abs32_imm20", "abs32_imm12"): False, ("rel_imm20", "rel_imm12"): True}
 
 
-def check_programs(ctx):
-    import logging
-    from ppci.api import cc, link, get_arch
-    from ppci.binutils.layout import Layout, Memory, Section as LSection
-    reqs, meta = [], []
-    for archname, isa in ARCHS.items():
-        layouts = [(0x1000, 0x8000), (0x40000, 0x2000)] + ([(0x7000000, 0x100)] if ctx.thorough else [])
-        for code_addr, data_addr in layouts:
-            try:
-                logging.disable(logging.CRITICAL)
-                obj = cc(io.StringIO(C_SRC), archname)
-                lay = Layout()
-                m1 = Memory("m1"); m1.location = code_addr; m1.size = 0x4000; m1.add_input(LSection("code")); lay.add_memory(m1)
-                m2 = Memory("m2"); m2.location = data_addr; m2.size = 0x1000; m2.add_input(LSection("data")); lay.add_memory(m2)
-                out = link([obj], layout=lay)
-            except Exception as e:  # noqa
-                ctx.note(f"C program for {archname} did not compile/link: {type(e).__name__}: {e}"[:200])
-                continue
-            finally:
-                logging.disable(logging.NOTSET)
-            ctx.count("programs")
-            ctx.count("eval_program_link")
-            rmap = out.arch.isa.relocation_map
-            sites = []
-            rels = list(out.relocations)
-            for r in rels:
-                size = rmap[r.reloc_type].size()
-                sites.append((r.section, r.offset, size))
-                if r.addend != 0:             # which producers ever emit an addend? (only x86_64 rel32, -4)
-                    ctx.count(f"addend_nonzero_{r.reloc_type}")
-                    if r.reloc_type != "rel32":
-                        ctx.note(f"{archname}: a compiled program carries addend {r.addend} on a {r.reloc_type} relocation")
-            # the decidable hypothesis of the list-level theorem, on the real object
-            overlap = [(a, b) for i, a in enumerate(sites) for b in sites[i + 1:]
-                       if a[0] == b[0] and a[1] < b[1] + b[2] and b[1] < a[1] + a[2]]
-            ctx.count("eval_sites_disjoint")
-            reqs.append(f"disjoint {isa} " + ";".join(f"{r.reloc_type}:{r.section}:{r.offset}" for r in rels))
-            meta.append(("disjoint", not overlap, {"arch": archname, "overlap": overlap[:3]}))
-            if overlap:
-                ctx.note(f"{archname}: overlapping relocation sites in a compiled program: {overlap[:3]}")
-            i = 0
-            while i < len(rels):
-                r = rels[i]
-                sec = out.get_section(r.section)
-                S = out.get_symbol_id_value(r.symbol_id)
-                P = sec.address + r.offset
-                size = sites[i][2]
-                site = bytes(sec.data[r.offset: r.offset + size])
-                case = {"arch": archname, "isa": isa, "reloc": r.reloc_type, "S": S, "P": P, "addend": r.addend, "program": True,
-                        "d": S + r.addend - P, "region": "program"}
-                nxt = rels[i + 1] if i + 1 < len(rels) else None
-                if nxt is not None and (r.reloc_type, nxt.reloc_type) in HILO_PAIRS and nxt.symbol_id == r.symbol_id \
-                        and nxt.section == r.section and nxt.offset == r.offset + 4:
-                    rel = HILO_PAIRS[(r.reloc_type, nxt.reloc_type)]
-                    lo = bytes(sec.data[nxt.offset: nxt.offset + 4])
-                    reqs.append(f"rhilo {site.hex()} {lo.hex()}")
-                    meta.append(("rhilo", None, (dict(case, reloc=r.reloc_type + "+" + nxt.reloc_type), rel)))
-                    i += 2
-                    continue
-                reqs.append(f"rrep {isa} {r.reloc_type} {S} {r.addend} {P}")
-                meta.append(("rrep", "ok", case))
-                reqs.append(f"rtarget {isa} {r.reloc_type} {site.hex()} {P}")
-                meta.append(("rtarget", "ok", case))
-                i += 1
-    out = ctx.driver("C11", reqs) if reqs else []
+def queue_all_sites(ctx, out, archname, isa, reqs, meta, tag):
+    """queue, for EVERY relocation entry of a linked object, the Spec decode of its site against the FINAL symbol value
+    (`get_symbol_id_value` of the output) and site address; also the decidable disjointness hypothesis"""
+    rmap = out.arch.isa.relocation_map
+    rels = list(out.relocations)
+    sites = []
+    for r in rels:
+        sites.append((r.section, r.offset, rmap[r.reloc_type].size()))
+        if r.addend != 0:             # which producers ever emit an addend? (only x86_64 rel32, -4)
+            ctx.count(f"addend_nonzero_{r.reloc_type}")
+            if r.reloc_type != "rel32":
+                ctx.note(f"{archname}: a {tag} carries addend {r.addend} on a {r.reloc_type} relocation")
+    overlap = [(a, b) for i, a in enumerate(sites) for b in sites[i + 1:]
+               if a[0] == b[0] and a[1] < b[1] + b[2] and b[1] < a[1] + a[2]]
+    ctx.count("eval_sites_disjoint")
+    reqs.append(f"disjoint {isa} " + ";".join(f"{r.reloc_type}:{r.section}:{r.offset}" for r in rels))
+    meta.append(("disjoint", not overlap, {"arch": archname, "overlap": overlap[:3]}))
+    if overlap:
+        ctx.note(f"{archname}: overlapping relocation sites in a {tag}: {overlap[:3]}")
+    i = 0
+    while i < len(rels):
+        r = rels[i]
+        sec = out.get_section(r.section)
+        S = out.get_symbol_id_value(r.symbol_id)
+        P = sec.address + r.offset
+        size = sites[i][2]
+        site = bytes(sec.data[r.offset: r.offset + size])
+        case = {"arch": archname, "isa": isa, "reloc": r.reloc_type, "S": S, "P": P, "addend": r.addend, "program": tag,
+                "d": S + r.addend - P, "region": "program", "section": r.section, "offset": r.offset}
+        nxt = rels[i + 1] if i + 1 < len(rels) else None
+        if nxt is not None and (r.reloc_type, nxt.reloc_type) in HILO_PAIRS and nxt.symbol_id == r.symbol_id \
+                and nxt.section == r.section and nxt.offset == r.offset + 4:
+            rel = HILO_PAIRS[(r.reloc_type, nxt.reloc_type)]
+            lo = bytes(sec.data[nxt.offset: nxt.offset + 4])
+            reqs.append(f"rhilo {site.hex()} {lo.hex()}")
+            meta.append(("rhilo", None, (dict(case, reloc=r.reloc_type + "+" + nxt.reloc_type), rel)))
+            i += 2
+            continue
+        reqs.append(f"rrep {isa} {r.reloc_type} {S} {r.addend} {P}")
+        meta.append(("rrep", "ok", case))
+        reqs.append(f"rtarget {isa} {r.reloc_type} {site.hex()} {P}")
+        meta.append(("rtarget", "ok", case))
+        i += 1
+
+
+def judge_all_sites(ctx, reqs, meta, out):
     rep = None
     for rq, (kind, impl, case), m in zip(reqs, meta, out):
         if kind == "disjoint":
@@ -541,14 +524,15 @@ def check_programs(ctx):
             if rep != "ok true":
                 if rep == "ok false":
                     ctx.fail(f"link:{case['reloc']}@{case['isa']}:program-links-unrepresentable",
-                             f"{case['arch']} compiled program: {case['reloc']} at {case['P']} against {case['S']} is not representable but linked", case)
+                             f"{case['arch']} {case['program']}: {case['reloc']} at {case['P']} against {case['S']} is not representable but linked", case)
                 continue
             ctx.count("eval_link_property")
             ctx.count("program_site_checked")
             want = case["S"] + (case["addend"] if case["reloc"] == "rel32" else 0)
             if m != f"ok {want}":
                 ctx.fail(f"link:{case['reloc']}@{case['isa']}:wrong-target-in-program",
-                         f"{case['arch']} compiled program: the {case['reloc']} site at {case['P']} designates {m[3:]}, its symbol is at {case['S']}", case)
+                         f"{case['arch']} {case['program']}: the {case['reloc']} site at {case['P']} ({case['section']}+{case['offset']}) designates "
+                         f"{m[3:]}, its symbol's final address is {case['S']}", case)
         elif kind == "rhilo":
             c, rel = case
             ctx.count("eval_link_property")
@@ -556,7 +540,133 @@ def check_programs(ctx):
             want = (c["S"] - c["P"]) % (1 << 32) if rel else c["S"]
             if m != f"ok {want}":
                 ctx.fail(f"link:{c['reloc']}:wrong-pair-value-in-program",
-                         f"{c['arch']} compiled program: pair at {c['P']} computes {m[3:]}, expected {want}", c)
+                         f"{c['arch']} {c['program']}: pair at {c['P']} computes {m[3:]}, expected {want}", c)
+
+
+def check_programs(ctx):
+    import logging
+    from ppci.api import cc, link, get_arch
+    from ppci.binutils.layout import Layout, Memory, Section as LSection
+    reqs, meta = [], []
+    for archname, isa in ARCHS.items():
+        # two memories (code / data), and ONE memory holding code followed by data (for rvc the data then moves when
+        # relaxation shrinks the code in front of it)
+        layouts = [(0x1000, 0x8000), (0x40000, None)] + ([(0x7000000, 0x100), (0x2000, None)] if ctx.thorough else [])
+        for code_addr, data_addr in layouts:
+            out = None
+            # in ONE memory, data behind relaxed rvc code loses its 4-byte alignment when an odd number of jumps shrinks (C13's open
+            # finding relaxed-link-fails:AssertionError:absaddr32): try source variants until one links
+            for extra in C_EXTRAS if data_addr is None else C_EXTRAS[:1]:
+                try:
+                    logging.disable(logging.CRITICAL)
+                    obj = cc(io.StringIO(C_SRC + extra), archname)
+                    lay = Layout()
+                    m1 = Memory("m1"); m1.location = code_addr; m1.size = 0x4000; m1.add_input(LSection("code")); lay.add_memory(m1)
+                    if data_addr is None:
+                        m1.add_input(LSection("data"))
+                    else:
+                        m2 = Memory("m2"); m2.location = data_addr; m2.size = 0x1000; m2.add_input(LSection("data")); lay.add_memory(m2)
+                    out = link([obj], layout=lay)
+                    break
+                except Exception as e:  # noqa
+                    ctx.count(f"program_link_failed_{exc_name(e)}")
+                    last = f"{type(e).__name__}: {e}"[:120]
+                finally:
+                    logging.disable(logging.NOTSET)
+            if out is None:
+                ctx.note(f"C program for {archname} ({'one memory' if data_addr is None else 'two memories'}) did not compile/link: {last}"
+                         + (" (cf. C13 finding relaxed-link-fails:AssertionError:absaddr32)" if "rvc" in archname else ""))
+                continue
+            ctx.count("programs")
+            ctx.count("eval_program_link")
+            queue_all_sites(ctx, out, archname, isa, reqs, meta, "compiled program" + (" (one memory)" if data_addr is None else ""))
+    out = ctx.driver("C11", reqs) if reqs else []
+    judge_all_sites(ctx, reqs, meta, out)
+
+
+# ---------------------------------------------------------------------------------------------
+# rvc relaxation with sections BEHIND the shrinking one in the same memory
+
+
+def check_relaxed_layouts(ctx):
+    """directly built riscv:rvc objects: jumps that the linker relaxes (cb_imm11/cbl_imm11 in range) in `code`, and further
+    sections (`code2`, `data`) placed behind it in the SAME memory, referenced from `code` (jumps, a lui/addi pair, a branch)
+    and referencing back into `code` (in front of and behind the shrunk instructions), plus address words in `data`.
+    An even number of relaxations keeps 4-byte alignment of what follows (C13's open alignment findings are not the
+    subject here)."""
+    from ppci.api import link, get_arch
+    from ppci.binutils.objectfile import ObjectFile, RelocationEntry
+    from ppci.binutils.layout import Layout, Memory, Section as LSection
+    arch = get_arch("riscv:rvc")
+    reqs, meta = [], []
+    J, JAL, BEQ, LUI, ADDI, NOP = "6f000000", "ef000000", "63000000", "b7050000", "93850500", "13000000"
+    for variant in range(6 if ctx.thorough else 3):
+        o = ObjectFile(arch)
+        code = o.get_section("code", create=True)
+        code2 = o.get_section("code2", create=True)
+        data = o.get_section("data", create=True)
+        syms = {}
+
+        def sym(name, section, value):
+            syms[name] = len(syms)
+            o.add_symbol(syms[name], name, "global", value, section.name, "object", 0)
+
+        def emit(section, hexbytes, rtype=None, target=None):
+            off = section.size
+            section.add_data(bytes.fromhex(hexbytes))
+            if rtype:
+                pending.append((rtype, target, section.name, off))
+        pending = []
+        n_relax = (2, 4, 2, 6, 2, 4)[variant]
+        sym("start", code, 0)
+        emit(code, NOP)
+        for k in range(n_relax):                       # in range: the linker relaxes these
+            emit(code, JAL if k % 2 == 0 else J, "cbl_imm11" if k % 2 == 0 else "cb_imm11", ("f2", "near", "g2")[k % 3])
+        sym("near", code, code.size)
+        emit(code, NOP)
+        emit(code, BEQ, "b_imm12", "f2")               # forward branch across the section boundary
+        emit(code, LUI, "abs32_imm20", "var"); emit(code, ADDI, "abs32_imm12", "var")
+        emit(code, JAL, "b_imm20", "g2")
+        sym("after", code, code.size)
+        emit(code, NOP)
+        for _ in range(ctx.rng.randrange(0, 3)):
+            emit(code, NOP)
+        sym("f2", code2, 0)
+        emit(code2, NOP)
+        emit(code2, J, "b_imm20", "start")             # backward across the boundary, in front of the shrunk jumps
+        emit(code2, BEQ, "b_imm12", "after")           # backward to a label BEHIND the shrunk jumps
+        sym("g2", code2, code2.size)
+        emit(code2, JAL, "b_imm20", "near")
+        emit(code2, LUI, "abs32_imm20", "tab"); emit(code2, ADDI, "abs32_imm12", "tab")
+        emit(data, "00000000" * (1 + variant % 2))
+        sym("var", data, data.size)
+        emit(data, "00000000", "absaddr32", "f2")
+        emit(data, "00000000", "absaddr32", "after")
+        sym("tab", data, data.size)
+        emit(data, "00000000", "absaddr32", "var")
+        for rtype, target, secname, off in pending:
+            o.add_relocation(RelocationEntry(rtype, syms[target], secname, off, 0))
+        lay = Layout()
+        base = (0x1000, 0x20000, 0x400)[variant % 3]
+        m1 = Memory("m1"); m1.location = base; m1.size = 0x1000
+        for n in ("code", "code2", "data"):
+            m1.add_input(LSection(n))
+        lay.add_memory(m1)
+        try:
+            out = link([o], layout=lay)
+        except Exception as e:  # noqa
+            ctx.count(f"relaxed_layout_link_failed_{exc_name(e)}")
+            ctx.note(f"rvc relaxed-layout object {variant} did not link: {type(e).__name__}: {e}"[:160])
+            continue
+        ctx.count("programs")
+        ctx.count("eval_relaxed_layout_link")
+        shrunk = sum(1 for r in out.relocations if r.reloc_type == "bc_imm11")
+        ctx.count("relaxed_layout_jumps_shrunk", shrunk)
+        if shrunk == 0:
+            ctx.note(f"rvc relaxed-layout object {variant}: no jump was relaxed")
+        queue_all_sites(ctx, out, "riscv:rvc", "riscv", reqs, meta, f"rvc object with {shrunk} relaxed jumps and sections behind the code")
+    res = ctx.driver("C11", reqs) if reqs else []
+    judge_all_sites(ctx, reqs, meta, res)
 
 
 # ---------------------------------------------------------------------------------------------
@@ -631,6 +741,7 @@ def check(ctx):
     check_multi(ctx)
     check_asm(ctx)
     check_programs(ctx)
+    check_relaxed_layouts(ctx)
     if ctx.thorough:
         check_llvm(ctx)
     ctx.extra_cov["exhaustive"] = False
